@@ -49,9 +49,18 @@ pub fn describe(bits: usize, cap: usize, t: usize, with_table: bool) -> Value {
         let pre = params.precomp();
         let mut tab = Vec::with_capacity(n);
         for i in 0..n {
-            let scalars = (0..n).map(|j| if j == i { Scalar::ONE } else { Scalar::ZERO });
-            let p = pre.vartime_mixed_multiscalar_mul(scalars, std::iter::empty::<Scalar>(), std::iter::empty::<RistrettoPoint>());
-            tab.push(penc(&p));
+            // the back end asserts that the table has as many rows as scalars: a short table must be reported, not abort the run
+            let r = std::panic::catch_unwind(std::panic::AssertUnwindSafe(|| {
+                let scalars = (0..n).map(|j| if j == i { Scalar::ONE } else { Scalar::ZERO });
+                pre.vartime_mixed_multiscalar_mul(scalars, std::iter::empty::<Scalar>(), std::iter::empty::<RistrettoPoint>())
+            }));
+            match r {
+                Ok(p) => tab.push(penc(&p)),
+                Err(_) => {
+                    rec["table_panic"] = json!(i);
+                    break;
+                },
+            }
         }
         rec["table"] = json!(tab);
     }
